@@ -310,6 +310,20 @@ Proof.
   - right. right. exists j. rewrite HJ. exact E.
 Qed.
 
+Lemma qc_after_detach k b st : QC st -> QC (after_detach k b st).
+Proof.
+  intros Q. unfold after_detach. destruct (kf_detachreset k); [exact Q|].
+  destruct (b && has_data_tag (tags st)); [|exact Q].
+  apply (qc_cm st); [exact Q|unfold reopen_data; simpl; eapply cm_trans; [apply cm_data_tags|apply cm_inherit]|
+    intros c id; apply J_frame; reflexivity].
+Qed.
+Lemma tq_after_detach k b st : TQ st -> TQ (after_detach k b st).
+Proof. intros (TC & Q). split; [apply tcore_after_detach; exact TC|apply qc_after_detach; exact Q]. Qed.
+Lemma qc_tag_again k p st : QC st -> QC (tag_again k p st).
+Proof. intros Q. unfold tag_again. destruct (kf_detachreset k); [exact Q|apply qc_start_tagging, Q]. Qed.
+Lemma tq_tag_again k p st : TQ st -> TQ (tag_again k p st).
+Proof. intros (TC & Q). split; [apply tcore_tag_again; exact TC|apply qc_tag_again; exact Q]. Qed.
+
 Lemma qc_tset_back st st' n tp :
   tags st' = tset n tp (tags st) -> QC st -> (forall c id, J st c id -> J st' c id) ->
   (t_live tp = true -> forall c id, memN c (t_conv tp) = true -> mem id (t_m tp) = true ->
@@ -334,8 +348,11 @@ Proof.
       (eapply (qc_tset_back st); [reflexivity|exact Q|intros c id; apply J_frame; reflexivity|simpl; intros; discriminate]).
   - (* ADelTag *) simpl. destruct (tget n (tags st)) as [t|]; [|exact Q]. destruct (referenced n (tags st)); [exact Q|].
     set (st1 := fold_left (fun s c => detach s n c) (t_conv t) st).
-    assert (TQ st1) as (_ & Q1) by (apply tq_fold; [intros; apply tq_detach; assumption|split; assumption]).
-    eapply (qc_tset_back st1); [reflexivity|exact Q1|intros c id; apply J_frame; reflexivity|simpl; intros; discriminate].
+    assert (TQ st1) as TQ1 by (apply tq_fold; [intros; apply tq_detach; assumption|split; assumption]).
+    apply qc_tag_again.
+    match goal with |- QC (set_tags ?s2 _) => set (st2 := s2) end.
+    assert (QC st2) as Q2 by (apply tq_after_detach; exact TQ1).
+    eapply (qc_tset_back st2); [reflexivity|exact Q2|intros c id; apply J_frame; reflexivity|simpl; intros; discriminate].
   - (* AQuery *) simpl. destruct (tget n (tags st)) as [t|]; [|exact Q]. destruct (complex d && _); [exact Q|]. destruct (refs_ok n d (tags st)); [|exact Q].
     apply qc_start_converter, qc_start_tagging.
     assert (QC (set_tags st (tset n (mkTag d 0 (all st) (t_conv t)) (tags st)))) as Q1.
@@ -379,7 +396,7 @@ Proof.
     simpl. intros _ c id C M. left. destruct (tget_In _ _ _ Tx) as (Ix & Lx). exists n, x. auto.
   - (* ASetConv *) simpl. destruct (tget n (tags st)); [|exact Q].
     match goal with |- context[if ?b then _ else _] => destruct b end; [|exact Q].
-    apply qc_start_converter. apply tq_attach_all. apply tq_fold; [|split; assumption].
+    apply qc_start_converter. apply tq_tag_again, tq_attach_all, tq_after_detach. apply tq_fold; [|split; assumption].
     intros s c Hs. destruct (memN c cs); [exact Hs|apply tq_detach; exact Hs].
   - (* ABodyImport *) simpl. destruct (jimp st) as [j|]; [|exact Q]. destruct (ij_resp j); [exact Q|].
     apply (qc_cm st); [exact Q|apply cm_refl|intros c id; apply J_frame; reflexivity].
@@ -499,6 +516,17 @@ Lemma tb3_detach st n c : TB3 st -> TB3 (detach st n c).
 Proof. intros (A & B). split; [apply detach_core; exact A|apply qb_detach; exact B]. Qed.
 Lemma tb3_fold (f : state -> N -> state) l : (forall s c, TB3 s -> TB3 (f s c)) -> forall st, TB3 st -> TB3 (fold_left f l st).
 Proof. intros Hf. induction l; simpl; auto. Qed.
+Lemma qb_after_detach k b st : Qb st -> Qb (after_detach k b st).
+Proof.
+  intros Q. unfold after_detach. destruct (kf_detachreset k); [exact Q|].
+  destruct (b && has_data_tag (tags st)); [|exact Q]. apply (qb_frame st); try reflexivity; exact Q.
+Qed.
+Lemma tb3_after_detach k b st : TB3 st -> TB3 (after_detach k b st).
+Proof. intros (A & B). split; [apply tcore_after_detach; exact A|apply qb_after_detach; exact B]. Qed.
+Lemma qb_tag_again k p st : Qb st -> Qb (tag_again k p st).
+Proof. intros Q. unfold tag_again. destruct (kf_detachreset k); [exact Q|apply qb_start_tagging, Q]. Qed.
+Lemma tb3_tag_again k p st : TB3 st -> TB3 (tag_again k p st).
+Proof. intros (A & B). split; [apply tcore_tag_again; exact A|apply qb_tag_again; exact B]. Qed.
 Lemma tb3_attach_all cs : forall st n, TB3 st -> TB3 (fst (attach_all st n cs)).
 Proof.
   induction cs as [|c cs IH]; simpl; intros st n H; [exact H|].
@@ -521,8 +549,10 @@ Proof.
     destruct (d_mark d); [|apply qb_start_tagging]; (apply (qb_frame st); try reflexivity; exact QB).
   - simpl. destruct (tget n (tags st)) as [t|]; [|exact QB]. destruct (referenced n (tags st)); [exact QB|].
     set (st1 := fold_left (fun s c => detach s n c) (t_conv t) st).
-    assert (TB3 st1) as (_ & Q1) by (apply tb3_fold; [intros; apply tb3_detach; assumption|split; assumption]).
-    apply (qb_frame st1); try reflexivity; exact Q1.
+    assert (TB3 st1) as T1 by (apply tb3_fold; [intros; apply tb3_detach; assumption|split; assumption]).
+    apply qb_tag_again.
+    match goal with |- Qb (set_tags ?s2 _) => assert (Qb s2) as Q2 by (apply tb3_after_detach; exact T1);
+      apply (qb_frame s2); try reflexivity; exact Q2 end.
   - simpl. destruct (tget n (tags st)) as [t|]; [|exact QB]. destruct (complex d && _); [exact QB|]. destruct (refs_ok n d (tags st)); [|exact QB].
     apply qb_start_converter, qb_start_tagging. apply (qb_frame st); try reflexivity; exact QB.
   - simpl. destruct (tget n (tags st)) as [t|]; [|exact QB]. destruct ids as [|i0 ids]; [exact QB|].
@@ -535,7 +565,7 @@ Proof.
     apply qb_start_converter, qb_start_tagging. apply (qb_frame st); try reflexivity; exact QB.
   - simpl. destruct (tget n (tags st)); [|exact QB].
     match goal with |- context[if ?b then _ else _] => destruct b end; [|exact QB].
-    apply qb_start_converter. apply tb3_attach_all. apply tb3_fold; [|split; assumption].
+    apply qb_start_converter. apply tb3_tag_again, tb3_attach_all, tb3_after_detach. apply tb3_fold; [|split; assumption].
     intros s c Hs. destruct (memN c cs); [exact Hs|apply tb3_detach; exact Hs].
   - simpl. destruct (jimp st) as [j|]; [|exact QB]. destruct (ij_resp j); [exact QB|]. apply (qb_frame st); try reflexivity; exact QB.
   - simpl. destruct (jtag st) as [j|]; [|exact QB]. destruct (tj_res j); [exact QB|]. apply (qb_frame st); try reflexivity; exact QB.
